@@ -63,16 +63,17 @@ theorem strcpy_same (cfg : Cfg) (dest dmax : Nat) (db : Bos) (hd : dest ≠ 0) (
     rw [if_neg (by omega), if_neg hd]
     simp
 
-theorem timeTail_ev (cfg : Cfg) (dest dmax : Nat) (db : Bos) (text : Nat) (hd : dest ≠ 0) (h26 : 26 ≤ dmax)
+theorem timeTail_ev (cfg : Cfg) (dest dmax : Nat) (db : Bos) (text : Nat) (lf : Bool) (hd : dest ≠ 0) (h26 : 26 ≤ dmax)
     (hb : ∀ b, db = some b → dmax ≤ b) (hn : db = none → dmax ≤ RSIZE_MAX_STR) :
-    EV (timeTail cfg dest dmax db text) (TPost (dmax < 120)) := by
+    EV (timeTail cfg dest dmax db text lf) (TPost (dmax < 120)) := by
   have nospc : EV (do handlerS ESNOSPC; pure ESNOSPC : Prog Nat) (TPost (dmax < 120)) :=
     EV.bind (EV.handlerS _) (fun _ es he => by
       subst he; exact EV.pure _ (Or.inr (Or.inl ⟨ne_ESNOSPC, by decide, by simp⟩)))
   unfold timeTail
   dsimp only
   split
-  · refine Quiet.then_ (by split <;> quiet) (fun _ => ?_)
+  · refine Quiet.then_ (by split; exact q_copyText _ _ _; quiet) (fun _ => ?_)
+    refine Quiet.then_ (by split <;> quiet) (fun _ => ?_)
     exact EV.pure _ (Or.inl ⟨rfl, Or.inr rfl⟩)
   split
   · refine Quiet.then_ (q_copyText _ _ _) (fun _ => ?_)
@@ -126,11 +127,11 @@ theorem asctime_s_ev (cfg : Cfg) (dest dmax tm : Nat) (db : Bos) (text : Nat) :
   refine Quiet.then_ (by split <;> quiet) (fun b2 => ?_)
   split
   · exact tp_failClr _ _ _ _ ne_ESLEMAX (by decide)
-  · exact timeTail_ev cfg dest dmax db text hd h26 hb hn
+  · exact timeTail_ev cfg dest dmax db text false hd h26 hb hn
 
 /-- ctime_s: all arguments, all memory contents -/
-theorem ctime_s_ev (cfg : Cfg) (dest dmax timer : Nat) (db : Bos) (text : Nat) :
-    EV (ctime_s cfg dest dmax timer db text) (TPost (dmax < 120)) := by
+theorem ctime_s_ev (cfg : Cfg) (dest dmax timer : Nat) (db : Bos) (text : Nat) (lf : Bool) :
+    EV (ctime_s cfg dest dmax timer db text lf) (TPost (dmax < 120)) := by
   unfold ctime_s
   refine timeEntry_ev _ _ _ (fun hd h26 hb hn => ?_)
   split
@@ -142,7 +143,7 @@ theorem ctime_s_ev (cfg : Cfg) (dest dmax timer : Nat) (db : Bos) (text : Nat) :
   refine Quiet.then_ (Quiet.loadP _) (fun t2 => ?_)
   split
   · exact tp_failClr _ _ _ _ ne_ESLEMAX (by decide)
-  · exact timeTail_ev cfg dest dmax db text hd h26 hb hn
+  · exact timeTail_ev cfg dest dmax db text lf hd h26 hb hn
 
 /-- what `TPost` means for runs -/
 theorem TPost.run {sm : Prop} {p : Prog Nat} (h : EV p (TPost sm)) (st : St) {r : Nat} {st' : St} (he : exec p st = .ok (r, st')) :
@@ -164,10 +165,10 @@ theorem asctime_s_C05_direct (cfg : Cfg) (dest dmax tm : Nat) (db : Bos) (text :
   · exact Or.inr h1
   · omega
 
-theorem ctime_s_C05_direct (cfg : Cfg) (dest dmax timer : Nat) (db : Bos) (text : Nat) (h : 120 ≤ dmax) (st : St) (r : Nat) (st' : St)
-    (he : exec (ctime_s cfg dest dmax timer db text) st = .ok (r, st')) :
+theorem ctime_s_C05_direct (cfg : Cfg) (dest dmax timer : Nat) (db : Bos) (text : Nat) (lf : Bool) (h : 120 ≤ dmax) (st : St) (r : Nat) (st' : St)
+    (he : exec (ctime_s cfg dest dmax timer db text lf) st = .ok (r, st')) :
     (st'.events = st.events ∧ (r = EOK ∨ r = NEG1)) ∨ (r ≠ EOK ∧ r ∈ TS ∧ st'.events = st.events ++ [.handler .str r]) := by
-  rcases TPost.run (ctime_s_ev cfg dest dmax timer db text) st he with h1 | h1 | ⟨hs, _⟩
+  rcases TPost.run (ctime_s_ev cfg dest dmax timer db text lf) st he with h1 | h1 | ⟨hs, _⟩
   · exact Or.inl h1
   · exact Or.inr h1
   · omega
@@ -184,11 +185,11 @@ theorem asctime_s_documented (cfg : Cfg) (dest dmax tm : Nat) (db : Bos) (text :
   · exact hsub _ (by simp)
 
 /-- ctime_s: every returned code is on the current `@retval` list -/
-theorem ctime_s_documented (cfg : Cfg) (dest dmax timer : Nat) (db : Bos) (text : Nat) :
-    ReturnsDocumented "ctime_s" [] (ctime_s cfg dest dmax timer db text) id := by
+theorem ctime_s_documented (cfg : Cfg) (dest dmax timer : Nat) (db : Bos) (text : Nat) (lf : Bool) :
+    ReturnsDocumented "ctime_s" [] (ctime_s cfg dest dmax timer db text lf) id := by
   intro st r st' he
   have hsub : ∀ c ∈ EOK :: NEG1 :: TS, c ∈ docCodes "ctime_s" ++ [] := by decide
-  rcases TPost.run (ctime_s_ev cfg dest dmax timer db text) st he with ⟨_, rfl | rfl⟩ | ⟨_, hm, _⟩ | ⟨_, rfl, _⟩
+  rcases TPost.run (ctime_s_ev cfg dest dmax timer db text lf) st he with ⟨_, rfl | rfl⟩ | ⟨_, hm, _⟩ | ⟨_, rfl, _⟩
   · exact hsub _ (by simp)
   · exact hsub _ (by simp)
   · exact hsub _ (List.mem_cons_of_mem _ (List.mem_cons_of_mem _ hm))
@@ -237,7 +238,7 @@ theorem timeTail_small (cfg : Cfg) (dest dmax : Nat) (db : Bos) (text n : Nat) (
       (dmax ≤ n → code = ESNOSPC ∧ st'.events = st.events ++ [.handler .str ESNOSPC] ∧ st'.data = st.data) := by
   unfold timeTail
   dsimp only
-  rw [if_neg ht, if_neg (by omega)]
+  rw [if_neg (by simp [ht]), if_neg (by omega)]
   simp only [exec_bind, exec_strlenP st text n scanFuel 0 hsrc hn, Nat.zero_add]
   by_cases hlt : n < dmax
   · rw [if_pos hlt]
@@ -275,15 +276,19 @@ theorem q_strnlenP (n s acc : Nat) : Quiet (strnlenP n s acc) := by
   | succ n ih => unfold strnlenP; quiet using ih _ _
 
 /-- outcome of gets_s: nothing reported and `dest` returned (EOK) or NULL at end of file (-1), or exactly one report of a code
-of `[ESNULLP, ESZEROL, ESLEMAX, EOVERFLOW, ESNOSPC]` which is also what `errno` is set to -/
+of `[ESNULLP, ESZEROL, ESLEMAX, EOVERFLOW, ESNOSPC]` which is also what `errno` is set to; 21 (EISDIR) is libc's errno of the
+read-error stream the harness uses -/
 def GPost : Nat → List Event → Prop := fun r es =>
-  (es = [] ∧ (r = EOK ∨ r = NEG1)) ∨ (r ≠ EOK ∧ r ∈ [ESNULLP, ESZEROL, ESLEMAX, EOVERFLOW, ESNOSPC] ∧ es = [.handler .str r])
+  (es = [] ∧ (r = EOK ∨ r = NEG1 ∨ r = 21)) ∨ (r ≠ EOK ∧ r ∈ [ESNULLP, ESZEROL, ESLEMAX, EOVERFLOW, ESNOSPC] ∧ es = [.handler .str r])
 
 theorem gp_failS (c : Nat) (hc : c ≠ EOK) (hm : c ∈ [ESNULLP, ESZEROL, ESLEMAX, EOVERFLOW, ESNOSPC]) : EV (failS c) GPost :=
   (EV.failS c).conseq (fun r es ⟨h1, h2⟩ => by subst h1; exact Or.inr ⟨hc, hm, h2⟩)
 
 theorem getsBody_ev (cfg : Cfg) (dest dmax inp len : Nat) : EV (getsBody cfg dest dmax inp len) GPost := by
   unfold getsBody
+  split
+  · refine Quiet.then_ (Quiet.storeP _ _) (fun _ => ?_)
+    exact EV.pure _ (Or.inl ⟨rfl, Or.inr (Or.inr rfl)⟩)
   refine Quiet.then_ (q_fgetsLoop _ _ _ _ _) (fun r => ?_)
   obtain ⟨m, eof⟩ := r
   dsimp only
@@ -295,7 +300,7 @@ theorem getsBody_ev (cfg : Cfg) (dest dmax inp len : Nat) : EV (getsBody cfg des
     exact EV.pure _ (Or.inl ⟨rfl, Or.inl rfl⟩)
   split
   · refine Quiet.then_ (Quiet.storeP _ _) (fun _ => ?_)
-    exact EV.pure _ (Or.inl ⟨rfl, Or.inr rfl⟩)
+    exact EV.pure _ (Or.inl ⟨rfl, Or.inr (Or.inl rfl)⟩)
   refine Quiet.then_ (Quiet.storeP _ _) (fun _ => ?_)
   refine Quiet.then_ (q_strnlenP _ _ _) (fun n => ?_)
   refine Quiet.then_ (by split <;> quiet) (fun last => ?_)
@@ -304,7 +309,9 @@ theorem getsBody_ev (cfg : Cfg) (dest dmax inp len : Nat) : EV (getsBody cfg des
   split
   · split
     · split
-      · exact EV.pure _ (Or.inl ⟨rfl, Or.inr rfl⟩)
+      · split
+        · exact EV.pure _ (Or.inl ⟨rfl, Or.inr (Or.inr rfl)⟩)
+        · exact EV.pure _ (Or.inl ⟨rfl, Or.inr (Or.inl rfl)⟩)
       · exact done_ _
     · refine Quiet.then_ (Quiet.loadP _) (fun c => ?_)
       split
@@ -340,7 +347,7 @@ theorem gets_s_ev (cfg : Cfg) (dest dmax : Nat) (db : Bos) (inp len : Nat) : EV 
 dest (EOK) or NULL at end of file (-1), or has reported exactly once, the code it leaves in `errno` -/
 theorem gets_s_C05 (cfg : Cfg) (dest dmax : Nat) (db : Bos) (inp len : Nat) (st : St) (r : Nat) (st' : St)
     (he : exec (gets_s cfg dest dmax db inp len) st = .ok (r, st')) :
-    (st'.events = st.events ∧ (r = EOK ∨ r = NEG1)) ∨
+    (st'.events = st.events ∧ (r = EOK ∨ r = NEG1 ∨ r = 21)) ∨
     (r ≠ EOK ∧ r ∈ [ESNULLP, ESZEROL, ESLEMAX, EOVERFLOW, ESNOSPC] ∧ st'.events = st.events ++ [.handler .str r]) := by
   obtain ⟨es, h1, h2⟩ := (gets_s_ev cfg dest dmax db inp len).sound st he
   rcases h2 with ⟨rfl, hr⟩ | ⟨hr, hm, rfl⟩
@@ -348,12 +355,13 @@ theorem gets_s_C05 (cfg : Cfg) (dest dmax : Nat) (db : Bos) (inp len : Nat) (st 
   · exact Or.inr ⟨hr, hm, h1⟩
 
 /-- gets_s: the code left in `errno` is on the current `@retval errno=` list of the doc comment (EOK / -1 stand for the two
-pointer results that set no code) -/
+pointer results that set no code, 21 for libc's errno of a failed read) -/
 theorem gets_s_documented (cfg : Cfg) (dest dmax : Nat) (db : Bos) (inp len : Nat) :
-    ReturnsDocumented "gets_s" [EOK, NEG1] (gets_s cfg dest dmax db inp len) id := by
+    ReturnsDocumented "gets_s" [EOK, NEG1, 21] (gets_s cfg dest dmax db inp len) id := by
   intro st r st' he
-  have hsub : ∀ c ∈ [ESNULLP, ESZEROL, ESLEMAX, EOVERFLOW, ESNOSPC], c ∈ docCodes "gets_s" ++ [EOK, NEG1] := by decide
-  rcases gets_s_C05 cfg dest dmax db inp len st r st' he with ⟨_, rfl | rfl⟩ | ⟨_, hm, _⟩
+  have hsub : ∀ c ∈ [ESNULLP, ESZEROL, ESLEMAX, EOVERFLOW, ESNOSPC], c ∈ docCodes "gets_s" ++ [EOK, NEG1, 21] := by decide
+  rcases gets_s_C05 cfg dest dmax db inp len st r st' he with ⟨_, rfl | rfl | rfl⟩ | ⟨_, hm, _⟩
+  · simp
   · simp
   · simp
   · exact hsub _ hm
